@@ -40,13 +40,13 @@ def cfgOf (a : Args) : Option (SstCfg × (Nat → Compression)) := do
   pure ({ cmp := bytesCmp, dc := comps dct, dct := dct, ic := comps ict, ict := ict }, comps)
 
 /-- `sst.write dcomp=N icomp=N doracle=.. ioracle=.. calls=k:v:f,...`
-→ `res=ok,dup,.. meta=.. index=<hex> data=<hex> metaf=<hex>` -/
+→ `res=ok,dup,.. index=<hex> data=<hex> metaf=<hex>` -/
 def sstWrite (a : Args) : String :=
   match cfgOf a, parseCalls (a.getD "calls" "") with
   | some (cfg, _), some calls =>
     let (w, rs) := (SstW.open cfg).run cfg calls
     let t := w.close
-    s!"res={String.intercalate "," (rs.map wresStr)} meta={metaStr w.finalMeta} index={toHex t.index} data={toHex t.data} metaf={toHex t.metaf}"
+    s!"res={String.intercalate "," (rs.map wresStr)} index={goBytesToStr (some t.index)} data={goBytesToStr (some t.data)} metaf={goBytesToStr (some t.metaf)}"
   | _, _ => "bad-op"
 
 def endStr : IterEnd → String
